@@ -93,8 +93,9 @@ class Lexer:
     key_pattern = r"[\u0080-\U0010FFFFa-zA-Z_][\u0080-\U0010FFFFa-zA-Z0-9_-]*"
 
     # A reserved word, or an identifier token made of name characters, ends where
-    # a name would end. `\b` is not enough: `in-stock` and `_foo` are names.
-    name_end_pattern = r"(?![\u0080-\U0010FFFFa-zA-Z0-9_-])"
+    # a name would end. `\b` is not enough: `in-stock` and `_foo` are names. A
+    # hyphen before a digit starts a negative number, as in `or-1` or `in-1`.
+    name_end_pattern = r"(?![\u0080-\U0010FFFFa-zA-Z0-9_]|-(?![0-9]))"
 
     # `not` or !
     logical_not_pattern = rf"(?:not{name_end_pattern})|!"
